@@ -120,6 +120,27 @@ Theorem C06_matrix_ty_mono : forall m m', mtx_looser m m' -> looser (matrix_ty m
 Proof. exact matrix_ty_mono. Qed.
 Print Assumptions C06_matrix_ty_mono.
 
+(* an include element whose type is unknown (the step [C06_matrix_ty_mono] excludes by
+   [keeps_obj]: the SET of known keys changes): from the repair of the round-8 defect on the
+   matrix is then the open object without known keys, so every chain below `matrix` is accepted *)
+Theorem C06_include_element_of_unknown_type_opens_the_matrix : forall rows cs,
+  existsb comb_unknown cs = true ->
+  matrix_ty {| mt_rows := rows; mt_incl := MInclList cs |} = TObj [] (Some TAny).
+Proof. exact matrix_ty_unknown_element. Qed.
+Print Assumptions C06_include_element_of_unknown_type_opens_the_matrix.
+
+(* before it the known keys kept their precise types: `matrix.os.x` was accepted with the element
+   typed {os: {x: number}} and reported with the element typed any *)
+Theorem C06_include_element_of_unknown_type_old_refuted :
+  exists rows t,
+    matrix_ty_old {| mt_rows := rows; mt_incl := MInclList [MCombExpr (Some t)] |}
+      = TObj [("os"%string, TAny)] None /\
+    matrix_ty_old {| mt_rows := rows; mt_incl := MInclList [MCombExpr (Some TAny)] |}
+      = TObj [("os"%string, TStr)] (Some TAny) /\
+    matrix_ty {| mt_rows := rows; mt_incl := MInclList [MCombExpr (Some TAny)] |} = TObj [] (Some TAny).
+Proof. exact matrix_ty_old_unknown_element_refuted. Qed.
+Print Assumptions C06_include_element_of_unknown_type_old_refuted.
+
 Theorem C06_raw_value_ty_mono : forall v v', rawv_looser v v' -> looser (raw_ty v) (raw_ty v').
 Proof. exact raw_ty_mono. Qed.
 Print Assumptions C06_raw_value_ty_mono.
